@@ -19,7 +19,7 @@ C03_RULE = ("grammars: profile 'types' (arity/type-set combinations across neste
             "2021 (the repository's edition). Oracle: rustc on the generated module together "
             "with exact-type assertions emitted from the independent static oracle (exhaustive destructuring of every struct, exhaustive "
             "match over every enum, alias equality in both directions, PegPosition impl) under #![forbid(unsafe_code)], plus a token scan "
-            "for unsafe/static/thread_local. evaluations = grammar x configuration compiled; non-trivial = grammar has a field with "
+            "for `unsafe` (occurrences of `static` / `thread_local` are only counted in coverage.scan_info). evaluations = grammar x configuration compiled; non-trivial = grammar has a field with "
             "Option/Vec arity or several types, a boxed field, an override rule, or a keyword name; distinct by grammar hash.")
 
 
@@ -89,6 +89,7 @@ def run_c03(prop, tier, seed):
     samples = []
     gen_rejected = {}
     fe_rejected = 0
+    scan_info = {}
     for wave in range(st["waves"]):
         out = batch.generate("types", seed, st["count"], tier, wave)
         if out is None:
@@ -113,10 +114,18 @@ def run_c03(prop, tier, seed):
                                        "panics" if fl["stage"] == "codegen_panic" else "fails", fl["message"][:300]),
                                    expected="generated code", observed=fl["message"][:500]))
         for gid, hits in gs.get("scan_hits", {}).items():
+            # the property forbids `unsafe`; `static` / `thread_local` are only counted (an immutable table or a scratch
+            # buffer is legitimate - hidden state is C20's business and is decided there by behaviour)
+            for h in hits:
+                if h != "unsafe":
+                    scan_info[h] = scan_info.get(h, 0) + 1
+            hits = [h for h in hits if h == "unsafe"]
+            if not hits:
+                continue
             m = next((m for m in models if m["id"] == gid), None)
             violations.append(dict(property="C03", kind="scan", grammar_text=m["text"] if m else "", spec=m["spec"] if m else None,
                                    signature="scan:" + ",".join(sorted(set(hits))),
-                                   message="generated code contains the token(s) %s" % sorted(set(hits)), expected="no unsafe/static/thread_local",
+                                   message="generated code contains the token(s) %s" % sorted(set(hits)), expected="no unsafe",
                                    observed=",".join(hits)))
         rc, errors, other = batch.build(out)
         by_id = {m["id"]: m for m in models}
@@ -145,7 +154,7 @@ def run_c03(prop, tier, seed):
         if violations:
             break
     coverage = dict(evaluations=evaluations, distinct_nontrivial=len(nontrivial), rule=C03_RULE, samples=samples, classes=classes,
-                    gen_rejected=gen_rejected, front_end_rejected=fe_rejected)
+                    gen_rejected=gen_rejected, front_end_rejected=fe_rejected, scan_info=scan_info)
     return main.finish(prop, tier, seed, t0, coverage, violations, main.BATCH_ASSUMPTIONS, infra)
 
 
@@ -401,9 +410,8 @@ HANDLERS.update({
 C16_RULE = ("accepted model grammars (profiles types/memo/mixed/fields/hooks, up to 9 rules, biased to multi-type fields and several cache entries) plus every "
             "grammar file of the repository the generator accepts (grammar.ebnf included), "
             "derive sets [Debug,Clone], [+PartialEq,Eq], [Clone], []; per grammar: library route twice in one process and in K fresh processes (fresh hash "
-            "seeds) byte-identical; CLI binary built from the tree (fresh process, -d per derive): code after the header identical to the library's and CRC "
-            "header line identical, the same for the CLI built with --release (no debug assertions); build-script route (Compile::file.destination.prefix.derives.run in a fresh process) = header + extra // header lines + "
-            "blank + prefix + newline + the same code bytes; header a pure function of the text; compile histories (stateful): generated sequences of compile calls in ONE process over accepted "
+            "seeds) byte-identical; CLI binary built from the tree (fresh process, -d per derive): code after the header identical to the library's (the header itself is outside the statement and only counted), the same for the CLI built with --release (no debug assertions); build-script route (Compile::file.destination.prefix.derives.run in a fresh process) = header + extra // header lines + "
+            "blank + prefix + newline + the same code bytes; compile histories (stateful): generated sequences of compile calls in ONE process over accepted "
             "texts and variants of them that the generator rejects half-way through a rule (non-ASCII case-insensitive literal or named field in a "
             "lookahead appended to a rule with a multi-alternative choice) - every accepted text must give exactly the code a fresh process gave, "
             "whatever was compiled (or rejected) before; macro route: batch of grammar pairs where one module is "
@@ -496,9 +504,9 @@ def run_c16(prop, tier, seed):
             elif code.rstrip("\n") != lib_code.rstrip("\n"):
                 viol(g, "cli", "code printed by the command-line tool differs from the library's", lib_code[:300], code[:300])
             else:
-                lib_hdr = g["header"].split("\n")
-                if len(hdr) < 2 or hdr[1] != lib_hdr[1]:
-                    viol(g, "cli", "CRC line of the command-line tool's header differs", lib_hdr[1], hdr[1] if len(hdr) > 1 else "")
+                # (the header is outside the statement - "after the header and prefix" - and its format is free: only counted)
+                if "\n".join(hdr).strip() != g["header"].strip():
+                    cls("info_cli_header_differs_from_library_header")
             cls("cli_route")
             # the same tool built with --release (no debug assertions, optimised): same bytes
             p2 = subprocess.run([cli_rel] + cargs + [g["file"]], stdout=subprocess.PIPE, stderr=subprocess.PIPE, timeout=120)
@@ -546,7 +554,7 @@ def run_c16(prop, tier, seed):
         key = text
         h = headers.setdefault(key, g["header"])
         if h != g["header"]:
-            viol(g, "header", "equal grammar texts give different headers", h, g["header"])
+            cls("info_equal_texts_different_headers")
         if g["multi_type_field"]:
             cls("multi_type_field")
         if g["cache_entries"] >= 2:
@@ -555,15 +563,6 @@ def run_c16(prop, tier, seed):
             nontrivial.add(hashlib.sha1((text + g["derives"]).encode()).hexdigest())
             if len(samples) < 4:
                 samples.append(dict(grammar=text, derives=g["derives"], routes=["library x%d processes" % K, "cli", "buildscript"]))
-    crcs = {}
-    for g in index:
-        with open(g["file"]) as f:
-            text = f.read()
-        crc = g["header"].split("\n")[1]
-        if crc in crcs and crcs[crc] != text:
-            # CRC-32 collisions are out of reach; equal CRC for different text would be a header that ignores the text
-            viol(g, "header", "different grammar texts share a CRC header line", "different", crc)
-        crcs[crc] = text
     # compile histories in one process (accepted texts and texts rejected half-way through a rule, in generated orders):
     # every accepted text must give the code a fresh process gave
     hist_out = os.path.join(d, "history.json")
